@@ -26,6 +26,8 @@ CATALOGUE = {
     "note": ({"type": "Text", "empty": True}, 4, ["", "v2.0", "zz", "n"], []),
     "ka": ({"type": "Text", "length": [[1, 1, True]]}, 1, ["x", "y"], ["", "xx"]),
     "kb": ({"type": "Text", "length": [[1, 2, False]]}, 2, ["x", "y"], [""]),
+    # values that differ only in where the blank sits: distinct keys in every format (fixed: 'x ' / ' x' once padded)
+    "kl": ({"type": "Text", "length": [[1, 2, False]]}, 2, ["x", " x", "y", " y"], [""]),
     "kc": ({"type": "Integer", "rule": {"items": [[0, 9, False]]}}, 1, ["1", "2"], ["z"]),
     "v": ({"type": "Text", "length": [[1, 1, True]]}, 1, ["p", "q", "r", "s", "t"], [""]),
     "memo": ({"type": "Text", "length": [[1, 40, False]]}, 32, ["big  red box", "very  fragile\u2028handle with care\x85", "a\tb c"], [""]),
